@@ -95,9 +95,30 @@ func (E *Engine) mapInfo(T types.Type) (root string, ksort string, vt types.Type
 	m := types.Unalias(T).Underlying().(*types.Map)
 	ksh := E.shape(m.Key())
 	if !ksh.Scalar {
-		panic(engineErr("map with aggregate key type " + typeKey(m.Key())))
+		// aggregate keys (structs of comparable leaves) are encoded as integers through an
+		// uninterpreted function of their leaves (mapKey); ranging over such a map is unsupported
+		return "map<" + typeKey(m.Key()) + "," + typeKey(m.Elem()) + ">", SInt, m.Elem()
 	}
 	return "map<" + typeKey(m.Key()) + "," + typeKey(m.Elem()) + ">", ksh.Sort, m.Elem()
+}
+
+// mapKey: the term that indexes the map's arrays for key k (k itself for scalar keys).
+func (E *Engine) mapKey(k *Val) *Val {
+	if k == nil || k.F == nil {
+		return k
+	}
+	ls := leaves(k)
+	var sorts, args []string
+	for _, l := range ls {
+		if l.S == "" {
+			panic(engineErr("map key with a derived pointer"))
+		}
+		sorts = append(sorts, l.Sort)
+		args = append(args, l.S)
+	}
+	name := qsym("key:" + typeKey(k.T))
+	E.declare(name, "("+strings.Join(sorts, " ")+") Int")
+	return &Val{T: k.T, S: sx(name, args...), Sort: SInt}
 }
 
 func (E *Engine) mapDom(h map[string]string, m *Val) string {
@@ -107,6 +128,7 @@ func (E *Engine) mapDom(h map[string]string, m *Val) string {
 }
 
 func (E *Engine) mapHas(h map[string]string, m, k *Val) string {
+	k = E.mapKey(k)
 	return sx("select", E.mapDom(h, m), k.S)
 }
 
@@ -133,6 +155,7 @@ func (E *Engine) cardEmptyFact(h map[string]string, m *Val) string {
 }
 
 func (E *Engine) mapGet(h map[string]string, m, k *Val) *Val {
+	k = E.mapKey(k)
 	root, ks, vt := E.mapInfo(m.T)
 	var ls []leafInfo
 	E.leafPaths(vt, "", &ls)
@@ -170,6 +193,7 @@ func (E *Engine) mapUpdate(st *State, x *ssa.MapUpdate) {
 	m, k, v := E.val(st, x.Map), E.val(st, x.Key), E.val(st, x.Value)
 	E.escapeVal(st, k)
 	E.escapeVal(st, v)
+	k = E.mapKey(k)
 	E.oblige(st, "nil-map", E.site(x), not(eq(m.S, "0")), "assignment to entry in non-nil map", E.pos(x), nil)
 	st.assume(not(eq(m.S, "0")))
 	E.lockCheckMap(st, x, x.Map, true)
@@ -194,6 +218,7 @@ func (E *Engine) mapUpdate(st *State, x *ssa.MapUpdate) {
 }
 
 func (E *Engine) mapDelete(st *State, in ssa.Instruction, m, k *Val) {
+	k = E.mapKey(k)
 	root, ks, _ := E.mapInfo(m.T)
 	has := E.mapHas(st.heap, m, k)
 	st.assume(implies(eq(m.S, "0"), not(has)))
@@ -265,11 +290,11 @@ func (E *Engine) rangeNext(st *State, x *ssa.Next) []*State {
 	vis := E.ghostVisited(st, itv.S, it)
 	qk := E.freshName("k")
 	dom := E.mapDom(st.heap, it.m)
-	st.assume(implies(ok, and(has, not(sx("select", vis, k.S)))),
+	st.assume(implies(ok, and(has, not(sx("select", vis, E.mapKey(k).S)))),
 		implies(not(ok), fmt.Sprintf("(forall ((%s %s)) (=> (select %s %s) (select %s %s)))", qk, ks, dom, qk, vis, qk)),
 		implies(eq(it.m.S, "0"), not(ok)))
 	// mark visited (per path)
-	st.ghost["visited:"+itv.S] = sx("store", vis, k.S, "true")
+	st.ghost["visited:"+itv.S] = sx("store", vis, E.mapKey(k).S, "true")
 	v := E.mapGet(st.heap, it.m, k)
 	st.assume(E.loadFacts(st, v)...)
 	// keys and values held by a map are reachable objects: allocated, type invariants hold
